@@ -14,8 +14,8 @@ abbrev Bytes := List UInt8
 
 def sha3Fns : HashFns Bytes Bytes where
   emptyH := sha3_256 []
-  leafH x := sha3_256 (0x00 :: x)
-  nodeH a b := sha3_256 (0x01 :: (a ++ b))
+  leafH x := sha3_256 (leafPrefix.map UInt8.ofNat ++ x)
+  nodeH a b := sha3_256 (interiorPrefix.map UInt8.ofNat ++ (a ++ b))
 
 def parseList (s : String) : Option (List Bytes) :=
   if s == "-" then some [] else (s.splitOn ",").mapM parseHex
